@@ -42,12 +42,13 @@ private theorem race_init (inWin peerWin peerMax nthr : Nat) (c : Bool) :
 
 /-- **At most one EOF, at most one CLOSE** — on the wire and in the hands of threads about to write, together,
     in every schedule (any number of threads calling close / shutdown / shutdown_write, peer EOF, peer CLOSE,
-    failed requests, transport teardown, in any interleaving).  EOF exists iff `eof_sent`. -/
+    failed requests, transport teardown, failing wire writes, in any interleaving).  An EOF exists only if
+    `eof_sent` is set. -/
 theorem eof_close_at_most_once (cfg : Cfg) (inWin peerWin peerMax nthr : Nat) (c : Bool) (sched : List Act) :
     List.countP Msg.isEof (run cfg (init inWin peerWin peerMax nthr c) sched).wire ≤ 1 ∧
     List.countP Msg.isClose (run cfg (init inWin peerWin peerMax nthr c) sched).wire ≤ 1 ∧
     (List.countP Msg.isEof (run cfg (init inWin peerWin peerMax nthr c) sched).wire +
-       sumBy TSt.nEof (run cfg (init inWin peerWin peerMax nthr c) sched).thr =
+       sumBy TSt.nEof (run cfg (init inWin peerWin peerMax nthr c) sched).thr ≤
      (run cfg (init inWin peerWin peerMax nthr c) sched).eofSent.toNat) := by
   have h := run_count cfg _ sched (count_init inWin peerWin peerMax nthr c)
   have e := h.eofc
@@ -83,19 +84,19 @@ theorem released_implies_closed (cfg : Cfg) (inWin peerWin peerMax nthr : Nat) (
 
 /-- **Later operations fail instead of sending.**  Once the channel is closed and its EOF is out (in
     particular once both CLOSEs were exchanged), NO action of any thread and no peer message creates a new
-    message: the number of messages written plus messages already in the hands of threads never changes
-    again — and the flags stay as they are. -/
+    message: the number of messages written plus messages already in the hands of threads never grows
+    again (it shrinks only when a pending wire write fails) — and the flags stay as they are. -/
 theorem dead_channel_sends_nothing (cfg : Cfg) (s : St) (sched : List Act)
     (hc : s.closed = true) (he : s.eofSent = true) :
-    msgTotal (run cfg s sched) = msgTotal s ∧ (run cfg s sched).closed = true ∧
+    msgTotal (run cfg s sched) ≤ msgTotal s ∧ (run cfg s sched).closed = true ∧
     (run cfg s sched).eofSent = true := by
   induction sched generalizing s with
-  | nil => exact ⟨rfl, hc, he⟩
+  | nil => exact ⟨Nat.le_refl _, hc, he⟩
   | cons a as ih =>
     have f := step_frame cfg s a
-    have h1 := dead_step cfg s a hc he
+    have h1 := dead_step_le cfg s a hc he
     obtain ⟨i1, i2, i3⟩ := ih (step cfg s a) (f.2.2.2.2.1 hc) (f.2.2.2.2.2.2 he)
-    exact ⟨i1.trans h1, i2, i3⟩
+    exact ⟨Nat.le_trans i1 h1, i2, i3⟩
 
 /-- … and the calls themselves raise: `send` / `send_stderr` on a closed channel is `socket.error` -/
 theorem send_on_closed_raises (cfg : Cfg) (s : St) (t n : Nat) (ext : Bool) (r : Res)
